@@ -33,7 +33,7 @@ the same verdict; otherwise the verdict is None (= both accepted) and the reason
   * hourly temperature feed under a daily/billing meter: day grid vs hours of the feed;
   * billing: the closing read closes the last period (period sum = N) vs the daily grid (N-1);
   * billing: an off-cycle period's days counted as valid usage or as dropped;
-  * zones with DST: +-1 day on every count and on the span;
+  * zones with DST: +-1 day on every count of valid days (the span itself is exact: calendar days);
   * month coverage: months pooled by month number vs separate (year, month).
 For reporting data two complete readings are returned (usage criteria do not apply / apply when
 usage is supplied); an observation conforms if it matches one of them.
@@ -266,10 +266,9 @@ def evaluate(kind, role, electric, usage_rows, temp_rows, ghi_rows=None, closing
     if role == "baseline":
         r = base_reading()
         if joint_row:
-            inside = [MIN_SPAN <= n <= MAX_SPAN for n in range(nlo, nhi + 1)]
-            r["SPAN"] = False if all(inside) else True if not any(inside) else None
-            if r["SPAN"] is None:
-                bands.append("SPAN_band")
+            # the span is a number of local calendar days: exact in every zone (a clock change makes the elapsed time
+            # an hour short or long, it does not change the number of days)
+            r["SPAN"] = not (MIN_SPAN <= n_days <= MAX_SPAN)
         else:
             r["SPAN"] = None
         r["USAGE"] = dec(U, "USAGE", joint_row)
